@@ -322,7 +322,7 @@ impl Property for C17 {
     fn rule(&self) -> String {
         "PART M (half of the cases): a size-static generated instruction set plus 1-3 macro rules `macN {p}.. => asm { ... }` over 1-3 base instructions each (operands: literal words, {param} \
          substituted textually - also with expression arguments such as `1 + 2` -, literals, block-local labels declared before or after their use, global labels incl. ones declared after \
-         the call, sub-rule operands; nested macro calls to depth 3) and a program of 1-4 macro calls between global labels (one case in three: the caller's nested constants are named like the block labels and passed as `.blk0`; one in four: the program stands in a bank whose first address is not 0); the generator also produces the hand-inlined program (textual \
+         the call, sub-rule operands; nested macro calls to depth 3) and a program of 1-4 macro calls between global labels (one case in three: the caller's nested constants are named like the block labels and passed as `.blk0`; one in four: the program stands in a bank whose first address is not 0, sometimes with a labelalign; one in six: a string literal with runs of blanks or a tab is handed textually through one or two asm-block rules); the generator also produces the hand-inlined program (textual \
          substitution exactly as written, block labels renamed apart). Oracle: both assemble (default budget) to identical bits, or both fail. PART F (a third): 1-2 user functions \
          `#fn f(a, b) => body` with generated bodies over their parameters and global constants; `#d f(e1, e2)`64` must equal `#d (body[a:=(e1), b:=(e2)])`64` and the reference evaluator. \
          PART P (one in seven): a function whose body reads `$`, a later label or a non-static constant, called with literal arguments from instruction operands behind a short/long instruction family (so the layout moves after the first pass); the program must equal the one with the body substituted by hand. PART R (the rest): recursion through functions (self, mutual), asm-block rules and nested calls at depths 3..10 (must succeed with the right value) and 100..20000 (must be an error, \
